@@ -47,9 +47,14 @@ func DrawHistory(ch Chooser) []HistItem {
 	n := 2 + ch.Intn(4)
 	var items []HistItem
 	var family []string
-	if ch.Intn(4) == 1 {
+	switch ch.Intn(6) {
+	case 1:
 		// a family of programs that differ only in how they define the type names A and B
 		family = gen.TypeStressFamily(ch.Intn, n)
+	case 2:
+		// a family of well-typed programs that differ only in the definition of A and whose
+		// run-time behaviour depends on A's polarity and shape
+		family = gen.RuntimeFamily(ch.Intn, n)
 	}
 	for i := 0; i < n; i++ {
 		k := histKinds[ch.Intn(len(histKinds))]
@@ -97,6 +102,13 @@ func DrawHistory(ch Chooser) []HistItem {
 			}
 		}
 		it.Cfg.KeepLeftovers = true
+		// now and then the text reaches the parser through a file (parser.ParseFile, as the command
+		// line does): the same unchanged file may then be parsed again by a later item
+		if k == "repeat" {
+			it.Cfg.ViaFile = it.Cfg.ViaFile || ch.Intn(3) == 1
+		} else {
+			it.Cfg.ViaFile = ch.Intn(4) == 1
+		}
 		items = append(items, it)
 	}
 	return items
